@@ -9,6 +9,7 @@ package manager
 
 import (
 	"sort"
+	"sync"
 	"sync/atomic"
 	"time"
 
@@ -173,5 +174,57 @@ func SetVerifYield(f func(point int, rt xdsresource.ResourceType, name string)) 
 func verifYield(point int, rt xdsresource.ResourceType, name string) {
 	if f, ok := verifYieldFn.Load().(func(int, xdsresource.ResourceType, string)); ok && f != nil {
 		f(point, rt, name)
+	}
+}
+
+// sender progress counters: tops = loop iterations started, gots = items taken from
+// streamCh/reqCh. The sender is idle in its select iff tops == gots+1.
+type verifSenderStat struct{ tops, gots int }
+
+var (
+	verifSenderMu    sync.Mutex
+	verifSenderStats = map[*xdsClient]*verifSenderStat{}
+)
+
+func verifSender(c *xdsClient, kind int) {
+	verifSenderMu.Lock()
+	st := verifSenderStats[c]
+	if st == nil {
+		st = &verifSenderStat{}
+		verifSenderStats[c] = st
+	}
+	if kind == 0 {
+		st.tops++
+	} else {
+		st.gots++
+	}
+	verifSenderMu.Unlock()
+}
+
+// VerifSenderIdle reports whether the sender goroutine is parked in its select with nothing
+// left in the request channel or the stream hand-off channel.
+func (m *xdsResourceManager) VerifSenderIdle() bool {
+	c := m.client
+	verifSenderMu.Lock()
+	st := verifSenderStats[c]
+	idle := st != nil && st.tops == st.gots+1
+	verifSenderMu.Unlock()
+	return idle && len(c.reqCh) == 0 && len(c.streamCh) == 0
+}
+
+// VerifForget drops the bookkeeping kept for a manager's client.
+func (m *xdsResourceManager) VerifForget() {
+	verifSenderMu.Lock()
+	delete(verifSenderStats, m.client)
+	verifSenderMu.Unlock()
+}
+
+// VerifClosed reports whether the client has been stopped for good.
+func (m *xdsResourceManager) VerifClosed() bool {
+	select {
+	case <-m.client.closeCh:
+		return true
+	default:
+		return false
 	}
 }
